@@ -589,7 +589,7 @@ func (ex *Exec) ghostField(st *State, ge ghostElem, name string) Val {
 			specFail("sent(): channel element type unknown")
 		}
 		for _, lf := range leaves(ge.et) {
-			if lf.path == name {
+			if lf.path == name || (lf.path == "" && name == "value") {
 				reg, s := sentRegion(ge.et, lf)
 				return term(sel(sel(st.region(reg, s), ge.ch), ge.idx), lf.typ)
 			}
@@ -823,6 +823,7 @@ func (ex *Exec) selectStmt(st *State, in *ssa.Select, k func(*State, Val)) {
 			et := s.Chan.Type().Underlying().(*types.Chan).Elem()
 			if arms[i].ch.Meta == "ctx.Done" {
 				sx.markCancelled(arms[i].ch)
+				sx.trace = append(sx.trace, "select:done")
 			}
 			rv := ex.recvValue(sx, arms[i].ch, et)
 			k(sx, mk(sx, i, recvNo, rv))
